@@ -51,7 +51,9 @@ def check_callers(ob, prog, spec, allowed, crates=None, floor=None, exact=None, 
                    f"{what} is used as a function value in {b.path}, which is not in the allowed set",
                    construct=b.path, where=b.loc(bb))
     if exact is not None:
-        ob.floor(n, exact, f"call sites of {what}", exact=True)
+        # counted on the pinned tree; the allowed-caller set carries the semantics, so more sites inside the
+        # allowed callers are fine (a floor, not an equality: equality would alarm on behaviour-preserving splits)
+        ob.floor(n, exact, f"call sites of {what}")
     elif floor is not None:
         ob.floor(n, floor, f"call sites of {what}")
     return sites
